@@ -29,6 +29,10 @@ type c18Line struct {
 	names []string
 }
 
+// c18Collide is a pair of distinct names with equal FastHash: a line lists the
+// first one, probes ask for the second one.
+var c18Collide = sync.OnceValues(func() (string, string) { return enum.CollidingHosts() })
+
 func c18Probes(names []string) []string {
 	seen := map[string]bool{}
 	var out []string
@@ -50,6 +54,9 @@ func c18Probes(names []string) []string {
 	}
 	add("other.test")
 	add("c")
+	hA, hB := c18Collide()
+	add(hA)
+	add(hB)
 	return out
 }
 
@@ -148,6 +155,8 @@ func init() {
 		if c.Thorough() {
 			maxNames = 4
 		}
+		hA, _ := c18Collide()
+		nameAlpha := append(append([]string{}, c18Names...), hA)
 		build := func(nameAlpha []string, nn int, seps []string) {
 			for _, addr := range c18Addrs {
 				if addr == "" && nn != 1 {
@@ -174,7 +183,7 @@ func init() {
 			}
 		}
 		for nn := 1; nn <= maxNames; nn++ {
-			build(c18Names, nn, c18Seps)
+			build(nameAlpha, nn, c18Seps)
 		}
 		if c.Thorough() {
 			for nn := 5; nn <= 8; nn++ {
